@@ -156,7 +156,7 @@ class ConditionalVerboseRule(BaseLintRule):
         """Parse Python code into AST."""
         try:
             return ast.parse(code or "")
-        except SyntaxError:
+        except (SyntaxError, RecursionError, MemoryError):
             return None
 
     def _collect_violations(
